@@ -259,7 +259,7 @@ def oracle(ctx, hints, effort):
         sc = dict(thickness=[0.5, 0.012, 1.0], density=[300.0, 900.0, 350.0], temperature=[255.0, 258.0, 262.0], microstructure="exponential",
                   frequency=5e9, micro=dict(corr_length=[2e-4, 5e-5, 3e-4]), ice_permittivity=[3.18, 1e-3],
                   substrate=dict(kind="flat", T=265.0, eps=[6.0, 0.5]), emmodel="iba", nmax=16, solver_options=dict(process_coherent_layers=True))
-        sc["thickness"][1] = round(float(rng.uniform(0.008, 0.014)), 4)
+        sc["thickness"][1] = round(float(rng.uniform(0.008, 0.012)), 4)      # k0 n d below 3 pi / 4 at 5 GHz: coherent in the original scene
         for a in (4.0, 0.25):
             try:
                 evals += 2
